@@ -224,6 +224,7 @@ type SpecFile struct {
 	Axioms  []AxiomDecl
 	Lemmas  []LemmaDecl
 	Guards  []GuardDecl
+	Opaque  []string          // functions of the repository abstracted at every call (never executed in place)
 	Imports map[string]string // alias -> package path
 }
 
@@ -614,7 +615,7 @@ func (ps *parser) parsePrimary() Expr {
 // not a keyword.
 
 var declKeywords = map[string]bool{"ghost": true, "pure": true, "pred": true, "rec": true, "func": true, "axiom": true, "lemma": true,
-	"package": true, "import": true, "abstract": true, "iface": true, "functype": true, "fieldfunc": true, "guarded": true, "immutable": true}
+	"package": true, "import": true, "abstract": true, "iface": true, "functype": true, "fieldfunc": true, "guarded": true, "immutable": true, "opaque": true}
 var clauseKeywords = map[string]bool{"requires": true, "ensures": true, "check": true, "modifies": true, "ghost_entry": true,
 	"ghost_exit": true, "loop": true, "call": true, "mode": true, "allocates": true, "tags": true, "ghostparams": true, "only": true, "callees": true, "implements": true, "panics": true, "thread": true, "readonly": true}
 
@@ -692,6 +693,14 @@ func parseSpecFile(path, pkgPath string, lines []rawLine) (sf *SpecFile, err err
 				return nil, fail(en, "expected Type.field")
 			}
 			sf.Ghosts = append(sf.Ghosts, GhostFieldDecl{sf.Pkg, tf[0], tf[1], parts[2]})
+			cur = nil
+		case "opaque":
+			// opaque f, pkg.g, (*T).m  - short names as printed in reports
+			for _, n := range strings.Split(rest, ",") {
+				if n = strings.TrimSpace(n); n != "" {
+					sf.Opaque = append(sf.Opaque, n)
+				}
+			}
 			cur = nil
 		case "guarded", "immutable":
 			// guarded [global] T.f by m  |  immutable [global] T.f   (lock discipline, C16)
